@@ -27,6 +27,7 @@ func c14(c *eng.Ctx, r *eng.Report) {
 		"R14.7 VerifySig is the only function of the node that evaluates the signature pairing (no second, e.g. aggregated, definition of validity), and the scalar hex printer/parser are an inverse pair. " +
 		"R14.8 the pairing is 1 as soon as either operand is the identity: optimalAte tests IsInfinity() of both its operands and sets the result to one under either (e(P,O) = e(O,Q) = 1 is what bilinearity needs at k = 0 and k = order). " +
 		"R14.9 a groupsig function whose pointer result some caller dereferences without a nil test (`*groupsig.DeserializeSign(raw)`) has no nil return — a malformed signature from a peer verifies as false, it does not crash the verifier. " +
+		"R14.10 negation keeps a point well-formed: twistPoint.Neg and curvePoint.Neg carry the cached z² (field t) over from their argument — zeroing it leaves an affine point (z = 1) with t = 0, which MakeAffine does not repair, and the Miller loop then computes a different value for the same group element (finding F26, fixed). " +
 		"Not decided: bilinearity, non-degeneracy, subgroup membership, soundness (algebraic; the baseline's curve tests sample them)."
 	r.Assume = []string{"bn256 Pair / PairIsEuqal implement the optimal Ate pairing and equality in GT"}
 	c14Verify(c, r)
@@ -47,6 +48,7 @@ func c14(c *eng.Ctx, r *eng.Report) {
 	c14Verifiers(c, r)
 	c14PairIdentity(c, r)
 	c14NoNilResult(c, r)
+	c14NegKeepsT(c, r)
 }
 
 func c14Verify(c *eng.Ctx, r *eng.Report) {
@@ -527,4 +529,46 @@ func c14NoNilResult(c *eng.Ctx, r *eng.Report) {
 		r.Check(nilRet == "", rule, "no-nil-result:"+eng.FuncName(fn), c.Pos(fn.Pos()), "never returns nil (its result is dereferenced without a test in "+where+")", eng.FuncName(fn)+" can return nil at "+nilRet+" while "+where+" dereferences the result without a nil test: bytes from a peer that fail to decode crash the verifying node instead of failing verification")
 	}
 	r.Check(n >= 1, rule, "no-nil-result:sites", "", fmt.Sprintf("%d pointer-returning functions with unguarded dereferences", n), "no groupsig function whose result is dereferenced unguarded was found (DeserializeSign expected)")
+}
+
+// c14NegKeepsT: t is part of the representation invariant (t = z²).
+func c14NegKeepsT(c *eng.Ctx, r *eng.Report) {
+	const rule = "R14.10"
+	r.Min(rule, 2)
+	for _, name := range []string{"(*twistPoint).Neg", "(*curvePoint).Neg"} {
+		fn := c.Func(bnPkg, name)
+		if !r.Anchor(fn != nil, rule, "bn256."+name) || !r.Anchor(len(fn.Params) == 2, rule, "bn256."+name+" parameters") {
+			continue
+		}
+		arg := fn.Params[1]
+		ok, how := false, "no assignment of the receiver's t found"
+		// c.t.Set(&a.t) / c.t = a.t
+		for _, s := range eng.Sites(fn) {
+			args := s.Common().Args
+			if len(args) >= 2 {
+				if _, f := eng.FieldOf(args[0]); f == "t" && strings.HasSuffix(s.Name(), ".Set") {
+					if _, f2 := eng.FieldOf(args[1]); f2 == "t" && valueDerivesFromValue(args[1], arg) {
+						ok = true
+					} else {
+						how = "t is set from " + eng.Desc(args[1])
+					}
+				}
+			}
+			if len(args) >= 1 {
+				if _, f := eng.FieldOf(args[0]); f == "t" && (strings.HasSuffix(s.Name(), ".SetZero") || strings.HasSuffix(s.Name(), ".SetOne")) {
+					how = "t is overwritten by " + s.Name()
+					ok = false
+				}
+			}
+		}
+		for _, st := range eng.FieldStores(fn, "consensus/groupsig/bn256."+strings.TrimSuffix(strings.TrimPrefix(name, "(*"), ").Neg"), "t") {
+			v := st.(*ssa.Store).Val
+			if _, f := eng.FieldOf(unload(v)); f == "t" && valueDerivesFromValue(v, arg) {
+				ok = true
+			} else {
+				ok, how = false, "t is assigned "+eng.Desc(v)
+			}
+		}
+		r.Check(ok, rule, "neg-keeps-t:"+name, c.Pos(fn.Pos()), "the receiver's t is copied from the argument's t", name+": "+how+" instead of the argument's t: the negated point no longer satisfies t = z² — for an affine point (z = 1, every key parsed from bytes) MakeAffine leaves it alone and the pairing of the negated point is not the pairing of the same group element reached by scalar multiplication: e(P,Q)·e(P,−Q) ≠ 1")
+	}
 }
